@@ -9,7 +9,10 @@ RULE = ("pairs (reference, compared) of unrooted trees on the same 4..11 taxa (r
         "re-rooted and child-shuffled copies, the compared tree a random contraction of the reference (1..all inner branches "
         "removed, the star tree included), the compared tree a refinement of the reference, contraction+re-resolution pairs sharing some "
         "splits, length-perturbed copies; every pair is run in both orders (swap), with and without tip branches, with and "
-        "without the identical-only shortcut, through Compare, CompareWeighted and CommonEdges; rejection cases rename one tip, "
+        "without the identical-only shortcut, through Compare, CompareWeighted and CommonEdges; every base pair also yields STREAMS of 4..6 "
+        "compared trees sent through one call (cpus=1): the reference itself first then contractions / other topologies / a re-rooted copy, "
+        "repeated identical trees, mixed streams with the star tree and length-perturbed copies, streams with a tree on other taxa in the "
+        "middle; each record is judged on its own against the per-tree model and the oracle; rejection cases rename one tip, "
         "drop a tip or add a tip in one of the trees; some rooted pairs (outside the quantifier) are run for the correspondence "
         "only; all ordered pairs of the 7 unrooted shapes on 4 taxa and of the 66 on 5 taxa are enumerated in the thorough tier (trees up to 24 taxa there); non-trivial = the two trees differ in at "
         "least one non-trivial split (or must be rejected); distinct = distinct case text")
@@ -170,16 +173,28 @@ def emit(out, kind, t1, t2, rng, ops=("compare", "weighted", "common"), flags=No
             if op == "common":
                 fl = [(False, False), (True, False)]
             for tips, ident in fl:
-                c = {"op": Sym(op), "t1": T(a), "t2": T(b), "tips": tips, "ident": ident}
+                if op == "common":
+                    c = {"op": Sym(op), "t1": T(a), "t2": T(b), "tips": tips, "ident": ident}
+                else:
+                    c = {"op": Sym(op), "t1": T(a), "t2s": [T(b)], "tips": tips, "ident": ident}
                 out.append({"sx": sx(c), "meta": {"kind": kind, "op": op, "tips": tips, "ident": ident, "swapped": sw,
-                                                  "ntips": len(leaves(a))}})
+                                                  "ntips": len(leaves(a)), "stream": 1}})
+
+def emit_stream(out, kind, t1, t2s, rng, ops=("compare", "weighted"), flags=None):
+    """several compared trees streamed through ONE call (cpus=1): nothing of an earlier tree may leak into a later record"""
+    for op in ops:
+        fl = flags if flags is not None else [(False, False), (True, False), (False, True)]
+        for tips, ident in fl:
+            c = {"op": Sym(op), "t1": T(t1), "t2s": [T(b) for b in t2s], "tips": tips, "ident": ident}
+            out.append({"sx": sx(c), "meta": {"kind": kind, "op": op, "tips": tips, "ident": ident, "swapped": False,
+                                              "ntips": len(leaves(t1)), "stream": len(t2s)}})
 
 def unrooted(g, rng, n, maxdeg=5):
     return g.tree(ntips=n, rooted=False, maxdeg=maxdeg, lenmode="all", supmode="mixed", up_random=rng.random() < 0.6)
 
 def gen(rng, tier):
     g = Gen(rng)
-    nbase = {"quick": 26, "thorough": 400, "search": 60}[tier]
+    nbase = {"quick": 24, "thorough": 300, "search": 50}[tier]
     hi = 11 if tier != "thorough" else 24
     out = []
     for _ in range(nbase):
@@ -198,6 +213,14 @@ def gen(rng, tier):
         # share some splits, differ in others
         m = resolve_random(contraction(t, rng), rng, g)
         emit(out, "mixed", t, shuffle_children(m, rng), rng, flags=fl2 + [(False, False)])
+        # streams through one call: the reference itself first, then contractions / other topologies / repeats
+        c1 = contraction(t, rng, k=1)
+        fl1 = [(rng.random() < 0.5, False)]
+        emit_stream(out, "stream-ref-first", t, [clone(t), c1, u, shuffle_children(reroot_at(t, rng), rng), c], rng, flags=fl1 + [(False, True)])
+        emit_stream(out, "stream-repeat", t, [clone(t), clone(t), c1, c1, clone(t)], rng, flags=fl1)
+        emit_stream(out, "stream-mixed", t, [r, c, m, contraction(t, rng, k=1000), perturb_lengths(t, rng, g), u], rng, flags=fl1)
+        if rng.random() < 0.5:
+            emit_stream(out, "stream-difftaxa", t, [clone(t), rename_tip(t, rng, "zz"), c1, clone(t)], rng, flags=fl1)
         # star tree against anything
         if rng.random() < 0.3:
             emit(out, "star", t, contraction(t, rng, k=1000), rng, flags=[(False, False), (False, True)])
@@ -225,6 +248,8 @@ def gen(rng, tier):
     emit(out, "witness", q1, q0, rng)
     emit(out, "witness", ref, star, rng)
     emit(out, "witness", ref2, ref, rng)
+    emit_stream(out, "witness-stream", q1, [clone(q1), q0, clone(q1), q0], rng)
+    emit_stream(out, "witness-stream", ref2, [clone(ref2), ref, star, clone(ref2)], rng)
     if tier == "thorough":
         for nn in (4, 5):
             shapes = [s for s in all_shapes(["t%d" % i for i in range(nn)]) if len(s) >= 3]
